@@ -521,7 +521,7 @@ class Graph:
             )
 
         if not nodes:
-            return self
+            return self._shallow_copy()
 
         all_nodes = list(self._nodes.values()) + list(nodes)
         new_graph = Graph(all_nodes, name=self.name, strict_types=self._strict_types)
